@@ -18,7 +18,7 @@ import (
 func init() {
 	Register(&Property{
 		ID: "C02",
-		Explanation: "Decides structural necessary conditions of 'limits fail closed and a request can only lower the depth': (R02.1) at every call that enters the recursive check engine from outside it, and in expand, the depth handed on equals eff(r,g) = (r<=0 or r>g) ? g : r for every ordering of the request depth r, zero and the global limit g -- decided by evaluating the function's own branch predicates on representatives of every ordering, followed through callers when a function passes its parameter on unclamped; (R02.2) every engine function with a depth parameter returns the cut-off result under a guard depth<=0 / depth<0 that dominates all its other engine calls; (R02.3) a cut-off always reaches every negation: out of band -- every cut-off site calls the marker, the negation flips NotMember to IsMember only on the false branch of a read of the flag, marks its own enclosing negation otherwise, and installs the same flag object in both contexts it hands to its child; no engine code creates a root context; additionally no combinator turns Unknown into IsMember (tables); (R02.5) the width limit is read only in a function that marks the cut-off; (R02.6) every comparison of the remaining depth with a constant in the engine answers with the cut-off result on its exhausted side -- none merely skips work; (R02.4) the width truncation slice is in range given the schema's minimum for max_read_width. " +
+		Explanation: "Decides structural necessary conditions of 'limits fail closed and a request can only lower the depth': (R02.1) at every call that enters the recursive check engine from outside it, and in expand, the depth handed on equals eff(r,g) = (r<=0 or r>g) ? g : r for every ordering of the request depth r, zero and the global limit g -- decided by evaluating the function's own branch predicates on representatives of every ordering, followed through callers when a function passes its parameter on unclamped; (R02.2) every engine function with a depth parameter returns the cut-off result under a guard depth<=0 / depth<0 that dominates all its other engine calls; (R02.3) a cut-off always reaches every negation: out of band -- every cut-off site calls the marker, the negation flips NotMember to IsMember only on the false branch of a read of the flag, marks its own enclosing negation otherwise -- also when the child's result is undetermined --, and installs the same flag object in both contexts it hands to its child; no engine code creates a root context; additionally no combinator turns Unknown into IsMember (tables); (R02.5) the width limit is read only in a function that marks the cut-off; (R02.6) every comparison of the remaining depth with a constant in the engine answers with the cut-off result on its exhausted side -- none merely skips work; (R02.4) the width truncation slice is in range given the schema's minimum for max_read_width. " +
 			"Not decided: that a request behaves exactly like a server whose global limit is eff beyond the clamp itself.",
 		Assumptions: []string{
 			"limit.max_read_depth >= 1 and limit.max_read_width >= 1 (embedx/config.schema.json minimums, read by the check)",
@@ -828,6 +828,74 @@ func r023(c *Ctx, inEng map[*ssa.Function]bool) {
 		r.Check(marks && !setsMember, "R02.3", name, "negation flip", p.Pos(flip.Pos()),
 			"IsMember is produced only when the cut-off flag is unset; otherwise the negation answers without IsMember and marks its own enclosing negation",
 			"when the cut-off flag is set the negation must not answer IsMember and must mark the cut-off in its own context (so an enclosing negation learns of it)")
+		// (ii-b) an undetermined child result (neither IsMember nor NotMember) is passed on only after
+		// marking the enclosing negation: an intersection above folds Unknown to NotMember, and the
+		// enclosing negation must not flip that
+		{
+			isMemCmp := func(v ssa.Value, want string) bool {
+				op, x, y, ok := core.BinCmp(v)
+				if !ok || op != token.EQL || !core.IsNamed(x.Type(), checkgroupPkg, "Membership") {
+					return false
+				}
+				k, isK := core.IntConst(y)
+				return isK && k == ri.MemberVals[want]
+			}
+			// the edge taken when both comparisons fail: the false successor of a test of one
+			// constant that is itself on the false side of a test of the other
+			var undet *ssa.BasicBlock
+			for _, b := range fn.Blocks {
+				if len(b.Instrs) == 0 {
+					continue
+				}
+				ifi, ok := b.Instrs[len(b.Instrs)-1].(*ssa.If)
+				if !ok {
+					continue
+				}
+				var other string
+				switch {
+				case isMemCmp(ifi.Cond, "NotMember"):
+					other = "IsMember"
+				case isMemCmp(ifi.Cond, "IsMember"):
+					other = "NotMember"
+				default:
+					continue
+				}
+				for _, cd := range core.CondsAt(b) {
+					if !cd.True && isMemCmp(cd.V, other) {
+						undet = b.Succs[1]
+					}
+				}
+			}
+			if undet == nil {
+				r.Undecide("R02.3", name, "undetermined child result", p.Pos(fn.Pos()), "cannot find the path on which the negated child's result is neither IsMember nor NotMember")
+			} else {
+				seen := map[*ssa.BasicBlock]bool{}
+				leak := false
+				var walk func(b *ssa.BasicBlock)
+				walk = func(b *ssa.BasicBlock) {
+					if seen[b] || leak {
+						return
+					}
+					seen[b] = true
+					for _, ins := range b.Instrs {
+						if callsMark(ins, ctxPar) {
+							return
+						}
+						if _, isSend := ins.(*ssa.Send); isSend {
+							leak = true
+							return
+						}
+					}
+					for _, sc := range b.Succs {
+						walk(sc)
+					}
+				}
+				walk(undet)
+				r.Check(!leak, "R02.3", name, "undetermined child result", p.Pos(lastPos(undet)),
+					"a child result that is neither IsMember nor NotMember is passed on only after the enclosing negation was marked",
+					"when the negated child comes back undetermined (cut off) the negation passes that on without marking the cut-off in its own context: an intersection above folds it to NotMember and the enclosing negation turns that into 'allowed' (!(!a && b) at the depth limit)")
+			}
+		}
 		// (iii) the same flag is installed on both routes
 		installedWith := func(ctxArg ssa.Value) bool {
 			seen := map[ssa.Value]bool{}
